@@ -330,7 +330,7 @@ open AdaVerif.Model.ParseSpecial AdaVerif.Model.ParseAgg AdaVerif.Lemmas.PA in
     measures `get_href_size()`, and on a parsed record the two are the same number (needs the Standard's record behind
     the fields, hence the side conditions of `Props.C01.parser_no_base_partial`) -/
 theorem parse_agrees_limited (idna : Idna) (L : Nat) (input : Bytes) (hid : ∀ d, AdaVerif.Lemmas.HP.IdnaAt idna d)
-    (hclean : AdaVerif.Lemmas.HS.bracketClean (schemeSpecial input) false (hostStart input) = true) :
+    (hclean : AdaVerif.Lemmas.BR.bracketOk (schemeSpecial input) (hostStart input) = true) :
     parseNoBaseAL idna L input = aggOf (parseNoBaseL idna L input) := by
   unfold parseNoBaseAL parseNoBaseL limited
   rw [parse_agrees idna input hid, AdaVerif.Lemmas.PS.parseNoBase_spec idna input hid hclean]
@@ -353,7 +353,7 @@ theorem parse_agrees_limited (idna : Idna) (L : Nat) (input : Bytes) (hid : ∀ 
 
 open AdaVerif.Model.ParseSpecial AdaVerif.Model.ParseAgg AdaVerif.Lemmas.PA in
 theorem href_agrees (idna : Idna) (L : Nat) (u : Url) (v : Bytes) (hid : ∀ d, AdaVerif.Lemmas.HP.IdnaAt idna d)
-    (hclean : AdaVerif.Lemmas.HS.bracketClean (schemeSpecial v) false (hostStart v) = true) :
+    (hclean : AdaVerif.Lemmas.BR.bracketOk (schemeSpecial v) (hostStart v) = true) :
     setHrefA idna L (layout (toL (recOf u))) v = view (setHrefR idna L (recOf u) v) := by
   unfold setHrefA setHrefR
   rw [parse_agrees_limited idna L v hid hclean]
@@ -411,7 +411,7 @@ open AdaVerif.Model.ParseSpecial AdaVerif.Model.ParseAgg AdaVerif.Lemmas.PAB in
 /-- **the origin getter agrees**: `url_aggregator::get_origin()` (through `get_protocol()`, `get_host()`, `get_pathname()` and,
     for `blob:`, its own parser) on the laid-out object is `url::get_origin()` (fields, and `ada::url`'s parser) -/
 theorem origin_agrees (idna : Idna) (r : AdaVerif.Model.UrlRec.Rec) (hb : BaseRec r) (hid : ∀ d, AdaVerif.Lemmas.HP.IdnaAt idna d)
-    (hclean : r.scheme = bBlob → AdaVerif.Lemmas.HS.bracketClean (schemeSpecial r.path) false (hostStart r.path) = true) :
+    (hclean : r.scheme = bBlob → AdaVerif.Lemmas.BR.bracketOk (schemeSpecial r.path) (hostStart r.path) = true) :
     getOriginA idna (layout (toL r)) = getOriginR idna r :=
   AdaVerif.Lemmas.OR.getOriginA_eq idna r hb hid hclean
 
